@@ -109,6 +109,8 @@ func (o *Op) enc() string {
 		return "REGOUT " + hx(o.Mt) + " " + strconv.Itoa(o.ID) + " " + b01(o.Flag) + " " + b01(o.Amend)
 	case "REGEV":
 		return "REGEV " + strconv.Itoa(o.Ev) + " " + strconv.Itoa(o.ID) + " " + b01(o.Flag)
+	case "UNREGIN", "UNREGOUT":
+		return "UNREG " + hx(o.Mt) + " " + strconv.Itoa(o.ID) // not understood by the model: such scenarios are oracle-only
 	}
 	panic("bad op " + o.Kind)
 }
@@ -266,6 +268,7 @@ type runner struct {
 	sendErr bool
 	views   map[int][]byte // per sequence number: the bytes the last outgoing handler was shown
 	amended bool
+	regIDs  map[int]int64 // scenario handler id -> id returned by the registration
 }
 
 func newRunner(sc *Scenario) (*runner, error) {
@@ -370,9 +373,16 @@ func (r *runner) apply(op *Op) (o obs, line string) {
 		_ = r.s.Logout()
 	case "STOP":
 		_ = r.s.Stop()
+	case "UNREGIN":
+		_ = r.h.RemoveIncomingHandler(op.Mt, r.regIDs[op.ID])
+	case "UNREGOUT":
+		_ = r.h.RemoveOutgoingHandler(op.Mt, r.regIDs[op.ID])
 	case "REGIN":
 		id, fl := op.ID, op.Flag
-		r.h.HandleIncoming(op.Mt, func(msg []byte) bool {
+		if r.regIDs == nil {
+			r.regIDs = map[int]int64{}
+		}
+		r.regIDs[id] = r.h.HandleIncoming(op.Mt, func(msg []byte) bool {
 			r.log = append(r.log, "I"+strconv.Itoa(id))
 			return fl
 		})
@@ -381,7 +391,10 @@ func (r *runner) apply(op *Op) (o obs, line string) {
 		if am {
 			r.amended = true
 		}
-		r.h.HandleOutgoing(op.Mt, func(msg simplefixgo.SendingMessage) bool {
+		if r.regIDs == nil {
+			r.regIDs = map[int]int64{}
+		}
+		r.regIDs[id] = r.h.HandleOutgoing(op.Mt, func(msg simplefixgo.SendingMessage) bool {
 			seq := msg.HeaderBuilder().MsgSeqNum()
 			r.log = append(r.log, "O"+strconv.Itoa(id)+":"+strconv.Itoa(seq))
 			if fl && am {
@@ -554,6 +567,11 @@ func runAndEmit(id int, sc *Scenario, tags []string) {
 	default:
 		rec.Impl = line
 		evalOracles(sc, all, rec)
+		for i := range sc.Ops {
+			if sc.Ops[i].Kind == "UNREGIN" || sc.Ops[i].Kind == "UNREGOUT" {
+				rec.Skip = true // oracle-only
+			}
+		}
 	}
 	scj, _ := json.Marshal(sc)
 	rec.Tags = append(rec.Tags, "scenario="+string(scj))
